@@ -13,7 +13,7 @@ use crate::json::J;
 use crate::mon::*;
 use crate::rng::{mix, Rng};
 use crate::run::*;
-use crate::sig::Sig;
+use crate::sig::{Sig, SigKind};
 use std::collections::HashSet;
 use std::sync::atomic::{AtomicU64, AtomicUsize, Ordering::SeqCst};
 use std::sync::{Arc, Mutex};
@@ -26,7 +26,52 @@ struct Item {
     ops: Vec<Op>,
     sig_seed: u64,
     f32_: bool,
+    /// Some(scale): the signal lives in the subnormal range of the sample type, where the result of every
+    /// multiply-add depends on the thread's floating-point control word
+    faint: Option<f64>,
+    /// malformed calls (rejected with Err) issued before the op of the same index
+    bads: Vec<Vec<BadCall>>,
 }
+
+impl Item {
+    fn sig(&self) -> Sig {
+        match self.faint {
+            Some(s) => Sig { seed: self.sig_seed, kind: SigKind::Faint(s) },
+            None => Sig::noise(self.sig_seed),
+        }
+    }
+    fn bads_at(&self, j: usize) -> &[BadCall] {
+        self.bads.get(j).map(|v| &v[..]).unwrap_or(&[])
+    }
+}
+
+/// control bits of the SSE control/status word of the calling thread (rounding mode, flush-to-zero,
+/// denormals-are-zero, exception masks); the sticky status flags are masked out
+#[cfg(all(target_arch = "x86_64", not(miri)))]
+fn fp_control() -> u32 {
+    let mut v: u32 = 0;
+    unsafe {
+        std::arch::asm!("stmxcsr [{}]", in(reg) &mut v, options(nostack));
+    }
+    v & 0xFFC0
+}
+#[cfg(not(all(target_arch = "x86_64", not(miri))))]
+fn fp_control() -> u32 {
+    0
+}
+#[cfg(all(target_arch = "x86_64", not(miri)))]
+fn set_fp_control(c: u32) {
+    let mut v: u32 = 0;
+    unsafe {
+        std::arch::asm!("stmxcsr [{}]", in(reg) &mut v, options(nostack));
+        v = (v & !0xFFC0) | c;
+        std::arch::asm!("ldmxcsr [{}]", in(reg) &v, options(nostack));
+    }
+}
+#[cfg(not(all(target_arch = "x86_64", not(miri))))]
+fn set_fp_control(_c: u32) {}
+
+static FP_LEAKS: Mutex<Vec<String>> = Mutex::new(Vec::new());
 
 enum AnyRunner {
     F32(Runner<f32>),
@@ -70,19 +115,50 @@ fn hash_step<T: Smp>(so: &StepOut<T>) -> u64 {
 impl AnyRunner {
     fn build(it: &Item) -> Result<Self, String> {
         Ok(if it.f32_ {
-            let mut r = Runner::<f32>::fresh(&it.cfg, Sig::noise(it.sig_seed))?;
+            let mut r = Runner::<f32>::fresh(&it.cfg, it.sig())?;
             r.check_alloc = false;
             AnyRunner::F32(r)
         } else {
-            let mut r = Runner::<f64>::fresh(&it.cfg, Sig::noise(it.sig_seed))?;
+            let mut r = Runner::<f64>::fresh(&it.cfg, it.sig())?;
             r.check_alloc = false;
             AnyRunner::F64(r)
         })
     }
-    fn step(&mut self, op: &Op) -> u64 {
-        match self {
+    /// the malformed calls scheduled before this op, then the op; the thread's floating-point control
+    /// word must be the same before and after (a library call that leaves it changed makes every later
+    /// result on that thread depend on this instance's history)
+    fn step(&mut self, op: &Op, bads: &[BadCall]) -> u64 {
+        let c0 = fp_control();
+        let mut h = 0u64;
+        for bc in bads {
+            let (applicable, v) = match self {
+                AnyRunner::F32(r) => do_bad_call(r, bc),
+                AnyRunner::F64(r) => do_bad_call(r, bc),
+            };
+            h = mix(&[h, applicable as u64, v.len() as u64]);
+            let c = fp_control();
+            if c != c0 {
+                let mut l = FP_LEAKS.lock().unwrap();
+                if l.len() < 4 {
+                    l.push(format!("after the rejected call {}: MXCSR control bits {:#06x} -> {:#06x}", bc.json().dump(), c0, c));
+                }
+            }
+        }
+        let hs = match self {
             AnyRunner::F32(r) => hash_step(&r.step(op)),
             AnyRunner::F64(r) => hash_step(&r.step(op)),
+        };
+        let c = fp_control();
+        if c != c0 {
+            let mut l = FP_LEAKS.lock().unwrap();
+            if l.len() < 4 {
+                l.push(format!("after {}: MXCSR control bits {:#06x} -> {:#06x}", op.json().dump(), c0, c));
+            }
+        }
+        if bads.is_empty() {
+            hs
+        } else {
+            mix(&[h, hs])
         }
     }
 }
@@ -124,7 +200,7 @@ impl Threads {
             c.fs_out = rng.ui(2, 24 + k);
             c.sub_chunks = 1;
             let ops = vec![Op::Proc { path: Path::Exact, slack_in: 0, slack_out: 0, mask: None, empty_inactive: false }; 2];
-            items.push(Item { cfg: c, ops, sig_seed: rng.next(), f32_: rng.bool() });
+            items.push(Item { cfg: c, ops, sig_seed: rng.next(), f32_: rng.bool(), faint: None, bads: Vec::new() });
         }
         let desc = J::obj().with("mode", J::s("construction storm")).with("threads", J::u(n_threads)).with("configurations", J::u(n_cfg)).with("rounds_per_thread", J::u(rounds)).with(
             "first_configurations",
@@ -139,7 +215,7 @@ impl Threads {
             let mut r = AnyRunner::build(it).ok()?;
             let mut h = 0u64;
             for op in &it.ops {
-                h = mix(&[h, r.step(op)]);
+                h = mix(&[h, r.step(op, &[])]);
             }
             Some(h)
         };
@@ -163,7 +239,7 @@ impl Threads {
                             if let Ok(mut run) = AnyRunner::build(it) {
                                 let mut x = 0u64;
                                 for op in &it.ops {
-                                    x = mix(&[x, run.step(op)]);
+                                    x = mix(&[x, run.step(op, &[])]);
                                 }
                                 h = Some(x);
                             }
@@ -230,7 +306,17 @@ impl Monitor for Threads {
                 let mut hp = HistProfile::full(if tiny { 5 } else { 16 });
                 hp.allow_reset = true;
                 let ops = gen_history(&mut rng, &cfg, &hp);
-                Item { cfg, ops, sig_seed: rng.next(), f32_: rng.bool() }
+                let f32_ = rng.bool();
+                // a third of the items carry a signal in the subnormal range; a third are sent malformed calls
+                let faint = if rng.chance(0.35) { Some(if f32_ { 10f64.powf(-rng.uf(36.0, 41.0)) } else { 10f64.powf(-rng.uf(306.0, 318.0)) }) } else { None };
+                let mut bads: Vec<Vec<BadCall>> = vec![Vec::new(); ops.len()];
+                if rng.chance(0.35) && !ops.is_empty() {
+                    for _ in 0..rng.ui(1, 3) {
+                        let j = rng.ui(0, ops.len() - 1);
+                        bads[j].push(gen_bad(&mut rng, cfg.channels));
+                    }
+                }
+                Item { cfg, ops, sig_seed: rng.next(), f32_, faint, bads }
             })
             .collect();
         // siblings: instances that differ from an existing one in a single filter-relevant parameter
@@ -274,13 +360,15 @@ impl Monitor for Threads {
         }
         let desc = J::obj().with("threads", J::u(n_threads)).with(
             "work_items",
-            J::Arr(items.iter().map(|it| J::obj().with("sample", J::s(if it.f32_ { "f32" } else { "f64" })).with("cfg", it.cfg.json()).with("signal_seed", J::Int(it.sig_seed as i128)).with("ops", ops_json(&it.ops))).collect()),
+            J::Arr(items.iter().map(|it| J::obj().with("sample", J::s(if it.f32_ { "f32" } else { "f64" })).with("cfg", it.cfg.json()).with("signal_seed", J::Int(it.sig_seed as i128)).with("signal_scale", it.faint.map(J::f).unwrap_or(J::Null)).with("ops", ops_json(&it.ops)).with("malformed_calls_before_op", J::Arr(it.bads.iter().enumerate().filter(|(_, b)| !b.is_empty()).map(|(j, b)| J::obj().with("op_index", J::u(j)).with("calls", J::Arr(b.iter().map(|x| x.json()).collect()))).collect()))).collect()),
         );
         set_desc(&desc);
         let mut cr = CaseResult { desc, ..Default::default() };
         if ctx.describe {
             return cr;
         }
+        FP_LEAKS.lock().unwrap().clear();
+        let fp0 = fp_control();
         // (a) single-threaded reference
         let mut reference: Vec<Vec<u64>> = Vec::new();
         for it in &items {
@@ -291,13 +379,13 @@ impl Monitor for Threads {
                     return cr;
                 }
             };
-            reference.push(it.ops.iter().map(|op| r.step(op)).collect());
+            reference.push(it.ops.iter().enumerate().map(|(j, op)| r.step(op, it.bads_at(j))).collect());
         }
         // (a') a second single-threaded execution must already agree (determinism on one thread)
         for (k, it) in items.iter().enumerate() {
             let mut r = AnyRunner::build(it).unwrap();
             for (j, op) in it.ops.iter().enumerate() {
-                if r.step(op) != reference[k][j] {
+                if r.step(op, it.bads_at(j)) != reference[k][j] {
                     cr.viols.push(Viol::new("C18", "nondeterministic_single_thread", format!("work item {} call {}: two executions on the same thread differ", k, j)));
                     return cr;
                 }
@@ -350,7 +438,7 @@ impl Monitor for Threads {
                             break;
                         }
                         let others = in_flight.fetch_add(1, SeqCst);
-                        let h = slot.runner.as_mut().unwrap().step(&items[k].ops[j]);
+                        let h = slot.runner.as_mut().unwrap().step(&items[k].ops[j], items[k].bads_at(j));
                         let others_after = in_flight.fetch_sub(1, SeqCst) - 1;
                         if others > 0 || others_after > 0 {
                             overlapped.fetch_add(1, SeqCst);
@@ -414,6 +502,13 @@ impl Monitor for Threads {
             }
             seqs.insert(format!("{}:{:?}", k, s.threads));
         }
+        for l in FP_LEAKS.lock().unwrap().drain(..) {
+            cr.viols.push(Viol::new("C18", "thread_fp_control_changed", format!("a call into the library changed the calling thread's floating-point control word: {}", l)));
+        }
+        set_fp_control(fp0);
+        st.add("malformed_calls_scheduled", items.iter().map(|it| it.bads.iter().map(|b| b.len()).sum::<usize>()).sum::<usize>() as f64);
+        st.add("work_items_with_subnormal_signal", items.iter().filter(|it| it.faint.is_some()).count() as f64);
+        st.add("calls_bracketed_by_fp_control_reads", if cfg!(all(target_arch = "x86_64", not(miri))) { total_calls.load(SeqCst) as f64 } else { 0.0 });
         let tc = total_calls.load(SeqCst);
         st.add("calls_executed_concurrently", tc as f64);
         st.add("calls_overlapping_another_threads_call", overlapped.load(SeqCst) as f64);
